@@ -392,6 +392,99 @@ def parser_tie_pass(ck, quick):
     return len(texts)
 
 
+def function_bodies(src):
+    """the texts between the braces of every function body of a program (no comments, no `const { }` in signatures)"""
+    if "//" in src or "/*" in src:
+        return []
+    out = []
+    for m in re.finditer(r"\bfn\s+\w+\s*\(", src):
+        i, depth = m.end(), 1
+        while i < len(src) and depth:
+            depth += {"(": 1, ")": -1}.get(src[i], 0)
+            i += 1
+        j = src.find("{", i)
+        if j < 0 or "const" in src[i:j] or "fn " in src[i:j]:
+            continue
+        k, depth = j + 1, 1
+        while k < len(src) and depth:
+            depth += {"{": 1, "}": -1}.get(src[k], 0)
+            k += 1
+        if depth == 0:
+            out.append(src[j + 1:k - 1])
+    return out
+
+
+PBLOCK_FIXED = [
+    "", "x", "x;", "let a = 1; a", "let mut a: u8 = 1u8; a = a + 1u8; a", "let (a, b): (u8, (bool, [i8; 2])) = t; a",
+    "a[i].0 = 1u8; a", "x += 1u8; x", "a[f(i)] *= 2u8; a", "s.k.1 >>= 1u8; s", "a[1] = 2u8; a[1usize] -= 2u8; a",
+    "t.0.1[2].f ^= y; t", "x -= y - z; x", "x <<= y << z; x", "x %= if c { 1u8 } else { 2u8 }; x",
+    "for i in 0..10 { x = x + i; } x", "for (a, b) in arr { s += a } s", "for i in join(a, b) { n += 1u8; } n",
+    "if c { x = 1u8; } x", "if c { x = 1u8; } else { x = 2u8; } x", "if c { 1u8 } else { 2u8 }", "if c { 1u8 } else { 2u8 } + 1u8",
+    "{ let y = 1u8; y } + 1u8", "{ x = 1u8; } x", "{ } x", "{ { } } x", "let u = { }; x", "let v = { x; y }; v",
+    "match x { 0u8 => 1u8, 1u8..5u8 => 2u8, 5u8..=9u8 => 3u8, _ => 4u8 }", "match x { -3i8..2i8 => a, _ => b, }",
+    "match t { (true, 0) => 1, (false, n) => n, (_, _) => 2 }", "match e { E::A => 1u8, E::B(x, (y, _)) => x + y, E::C(..) => 0u8 }",
+    "match s { S { b, a: 3u8 } => b, S { a, .. } => a }", "match x { 0 => { y = 1u8; y } 1 => if c { 1u8 } else { 2u8 } _ => 3u8 }",
+    "match x { 0 => { 1u8 } + 1u8, _ => 3u8 }", "match (match x { _ => y }) { _ => z }", "match x { 1..0 => a, _ => b }",
+    "match x { 1u8..2u16 => a, _ => b }", "match x { 0u8 => 1u8 1u8 => 2u8 }", "let x = 1u8 x", "let = 1u8; x", "let mut (a, b) = t; a",
+    "x = ; x", "x += ; x", "1 = x; x", "f(x) = 1; x", "x.0.a[1] x", "for in a { } x", "for i a { } x", "if c { x x", "x }", "{ x",
+    "let a: [u8; 4] = [0u8; 4]; a", "let a: [u8; N] = b; a", "let a: [[u8; 2]; 3usize] = b; a", "let a: () = (); a", "let a: (u8,) = b; a",
+    "x as u8; y", "x as (u8, u8)", "-x; y", "!x; !y", "x; ; y", ";", "x;;", "if c { a } b", "if c { a }; b", "match x { _ => a } b",
+    "match x { _ => a }; b", "for i in a { } for j in b { } c", "let s = S { a: 1u8 }; s", "for i in S { a: 1u8 } { } x",
+    "if S { a: 1u8 } == s { 1u8 } else { 2u8 }", "match S { a: 1u8 } { _ => 1u8 }", "x = y = z; x", "x == y; z", "a.0 += b.1 += c; a",
+]
+
+
+def block_tie_pass(ck, quick, corpus):
+    """the Gallina model of the STATEMENT parser (Front/ParseExpr.v parse_stmt / parse_stmts / patterns / types / match,
+    entry parse_block_text) against the real parser on function bodies: same untyped statements, or both refuse"""
+    import gen_prec as GP
+    import progcheck as PC
+    rng = ck.rng
+    bodies = [("fixed", t) for t in PBLOCK_FIXED]
+    for _ in range(60 if quick else 1500):
+        (_, ss), _, src = GP.program_stmts(rng)
+        bodies.append(("oracle", GP.show_stmts(ss) + " (m, n, ua, tu, sa, ne)"))   # without the array-literal initialisers
+    for _, src in PC.generated_sources(ck, 60 if quick else 1500):
+        bodies += [("generated", b) for b in function_bodies(src)]
+    for name, src in corpus:
+        bodies += [("corpus", b) for b in function_bodies(src)]
+    # token-level damage of real bodies
+    base = [b for k, b in bodies if k in ("oracle", "generated", "corpus")]
+    for b in rng.sample(base, min(len(base), 60 if quick else 1500)):
+        toks = re.findall(r"\w+|[^\w\s]", b)
+        if len(toks) > 3:
+            k = rng.randrange(len(toks))
+            bodies.append(("damaged", " ".join(toks[:k] + toks[k + 1:])))
+            bodies.append(("damaged", " ".join(toks[:k] + [rng.choice([";", "{", "}", "=", "let", "mut", ",", "(", ")", "+=", "if", "else", "match", "=>", "for", "in", ".."])] + toks[k:])))
+    jobs = [f"(pblock b{i} (src {quote(t)}))" for i, (_, t) in enumerate(bodies)]
+    rs = run_jobs(GVRUN, jobs, "c07.pblock.rs", timeout_per_job=1.0)
+    ml = run_jobs(MODELRUN, jobs, "c07.pblock.ml", timeout_per_job=1.0)
+    cnt, bad = {}, 0
+    for i, (kind0, t) in enumerate(bodies):
+        r, m = rs.get(f"b{i}", "(no-result)").strip(), ml.get(f"b{i}", "(no-result)").strip()
+        if r == "(outside)" or m == "(outside)":
+            kind = "outside-model"     # struct / enum / array literals, range expressions, join loops: not modelled
+        elif r == m:
+            kind = "same-statements" if r.startswith("(stmts") else "both-refuse"
+        else:
+            kind = "differ"
+            bad += 1
+            if bad <= 3:
+                ck.violation("the model of the statement parser (Front/ParseExpr.v) and src/parse.rs build different "
+                             "statements for this function body",
+                             {"body": t, "rust": r[:400], "model": m[:400], "correspondence": "Front/ParseExpr.v "
+                              "parse_block_text vs garble_lang parser (untyped body of `pub fn main(zz: u8) -> u8 {<body>}`)"},
+                             found_input=False)
+        cnt[kind0 + ":" + kind] = cnt.get(kind0 + ":" + kind, 0) + 1
+    same = sum(v for k, v in cnt.items() if k.endswith("same-statements"))
+    ck.obligation("correspondence Front/ParseExpr.v = src/parse.rs on statements: the model of the statement / pattern / "
+                  "type / match parser builds the same untyped function body as the real parser (or both refuse) on "
+                  "every fixed, generated, corpus and damaged body", bad == 0, f"{bad} differ")
+    ck.obligation("statement-parser tie: at least 100 bodies are compared statement by statement", same >= 100, str(cnt))
+    ck.coverage["statement_parser_model_tie"] = {"bodies": len(bodies), "by_kind": cnt}
+    return len(bodies)
+
+
 def run(ck):
     quick = ck.tier == "quick"
     rng = ck.rng
@@ -713,6 +806,7 @@ def run(ck):
                   unknown_fails == 0, f"{unknown_fails} failing jobs")
     n_eval = len(sjobs) + len(pj) + len(fjs)
     n_pexpr = parser_tie_pass(ck, quick) if (ck.harness_ok and ck.model_ok) else 0
+    n_pblock = block_tie_pass(ck, quick, corpus) if (ck.harness_ok and ck.model_ok) else 0
     ck.coverage.update({
         "evaluations": n_eval,
         "distinct_nontrivial": len(set(t for _, t in stexts if len(t) >= 4)) + len(set(t for _, t, _ in fj if len(t) >= 4)),
